@@ -51,7 +51,12 @@ func periodScenario(period, quota int, calls []int, withFault bool) vx.Scenario 
 			vsched.GoNamed(fmt.Sprintf("taker%d", ti), false, func() {
 				for c := 0; c < n; c++ {
 					vsched.Op("take")
-					code, err := lim.Take("a")
+					var code int
+					var err error
+					e.counted(func() { code, err = lim.Take("a") })
+					if e.resent.Swap(false) {
+						vsched.Log("!resent")
+					}
 					b, _ := json.Marshal(pRec{T: fmt.Sprintf("t%d", ti), Code: code, Err: err != nil, Store: dumpString(periodDump(e))})
 					vsched.Log("%s", b)
 				}
@@ -83,6 +88,9 @@ func periodScenario(period, quota int, calls []int, withFault bool) vx.Scenario 
 		var sig, order []string
 		granted := 0
 		for i, l := range e.Log() {
+			if l == "!resent" { // the redis client re-sent a command: not a valid observation
+				return vx.Verdict{Sig: "skipped: client re-sent a command"}
+			}
 			var rc pRec
 			if err := json.Unmarshal([]byte(l), &rc); err != nil {
 				return vx.Verdict{Class: "harness-bad-log", Msg: err.Error()}
@@ -187,7 +195,11 @@ func tokenScenario(rate, burst int, threads [][]tCall, withOutage bool) vx.Scena
 					now := vsched.TimeNow()
 					nowMs := now.Sub(vsched.Epoch).Milliseconds()
 					before := state(c.inst, nowMs)
-					got := lims[c.inst].AllowN(now, c.n)
+					var got bool
+					e.counted(func() { got = lims[c.inst].AllowN(now, c.n) })
+					if e.resent.Swap(false) {
+						vsched.Log("!resent")
+					}
 					b, _ := json.Marshal(tRec{T: fmt.Sprintf("t%d", ti), I: c.inst, N: c.n, NowMs: nowMs, Got: got, Before: before, After: state(c.inst, nowMs)})
 					vsched.Log("%s", b)
 				}
@@ -219,6 +231,9 @@ func tokenScenario(rate, burst int, threads [][]tCall, withOutage bool) vx.Scena
 		granted, lastMs := 0, int64(0)
 		perInst := map[int]int{}
 		for _, l := range e.Log() {
+			if l == "!resent" {
+				return vx.Verdict{Sig: "skipped: client re-sent a command"}
+			}
 			var rc tRec
 			if err := json.Unmarshal([]byte(l), &rc); err != nil {
 				return vx.Verdict{Class: "harness-bad-log", Msg: err.Error()}
